@@ -106,7 +106,10 @@ Proof. exact tie_same_stream. Qed.
 
 (** ... in lock step: related states after every schedule (counters, every actor at the computed
     state of its program point, the dicts / sets holding under each task / trace number what that
-    program point says, nothing under trace numbers not yet handed out) *)
+    program point says, nothing under trace numbers not yet handed out).
+    LABEL: the states [K_*] of [Rsys] are `Eval vm_compute` of the interpreter itself on the regenerated
+    trees -- this half is self-referential and says nothing by itself; the content is the stream equality
+    above (model's stream = interpreter's stream), for which [Rsys] is the induction invariant. *)
 Theorem C09_tie_simulation : forall r ps sched,
   Rsys r (fst (irun r (iinit ps) sched)) (fst (run r (init_sys ps) sched)).
 Proof. exact (fun r ps sched => proj2 (sim r ps sched)). Qed.
@@ -123,9 +126,18 @@ Proof. exact tie_finished. Qed.
 Theorem C09_tie_wf : forall r ps sched, ifinished r ps sched = true -> WF r (iemitted r ps sched).
 Proof. exact tie_wf. Qed.
 
-(** every start event's end is put in a `finally`, with the numbers read at ENTRY: whether the body of
-    the `with` returns or raises ([thrown]), and whatever the hooks would answer after the yield, the
-    generator puts exactly start then end, with the same run / trace / trace-call / prompt numbers *)
+(** EXCEPTIONS.  The interpreter behind the simulation raises nothing but an explicit `raise` and a failing
+    `assert`; there `try: a finally: b` is a-then-b.  What is proved about exceptions is the following, for each
+    generator-based hook ON ITS OWN ([gexec]: an exception is THROWN INTO the generator at its first yield, i.e.
+    the body of the `with` raised; hook answers after the yield are arbitrary):
+    every start event's end is put in a `finally`, with the numbers read at ENTRY -- whether the body of the
+    `with` returns or raises ([thrown]), the generator puts exactly start then end, with the same run / trace /
+    trace-call / prompt numbers.  Dedenting the put out of the `finally` (or removing the try) changes the
+    generated term (STry) and breaks these theorems.
+    NOT covered by any theorem: an exception raised by a statement of the hook itself (queue put, KeyError on
+    `del`), by the entry of a context manager stacked later, by `hook.hook.prompt`; KeyboardInterrupt going
+    through `catch()` in _context and being re-raised after the `with`; how apluggy's stack_gen_ctxs unwinds
+    (trusted: inner to outer, as its doctest says); cancellation does not exist in the child (threads, sync code). *)
 Theorem C09_tie_end_in_finally_trace_call : forall thrown sent hk r tci,
   map nums (gen_run thrown sent hk r f_Repeater_on_trace_call [tci]) =
   [("OnStartTraceCall"%string, [VNum r; hk false "current_trace_no"%string; field tci "trace_call_no"; VBad]);
@@ -144,7 +156,23 @@ Theorem C09_tie_end_in_finally_prompt : forall thrown sent hk r pn txt,
    ("OnEndPrompt"%string, [VNum r; hk false "current_trace_no"%string; field (hk false "current_trace_call_info"%string) "trace_call_no"; pn])].
 Proof. exact tie_end_in_finally_prompt. Qed.
 
-(** trace numbers, trace-call numbers and prompt numbers each come from ONE counter object created once
+(** TraceCallHandler.on_trace_call (thrown or not): no event; every dict / set it writes under the trace number
+    read at entry ends with a removal under that same key; as many entries removed as recorded *)
+Theorem C09_tie_handler_removes_in_finally : forall thrown sent hk r tci,
+  let g := gen_res thrown sent hk r f_TraceCallHandler_on_trace_call [tci] in
+  let names := dedup (map (fun e => fst (fst e)) (gr_sets g)) in
+  gr_puts g = [] /\ names <> [] /\
+  forallb (fun m => match last_write (gr_sets g) m with
+                    | Some (_, None) => true
+                    | _ => false end) names = true /\
+  map (fun e => snd (fst e)) (gr_sets g) = map (fun _ => hk false "current_trace_no"%string) (gr_sets g) /\
+  List.length (filter (fun e => match snd e with Some _ => true | None => false end) (gr_sets g)) =
+  List.length (filter (fun e => match snd e with Some _ => false | None => true end) (gr_sets g)).
+Proof. exact tie_handler_removes_in_finally. Qed.
+
+(** LABEL: reflexivity on facts the translator computes (where each counter object is created, its first value);
+    the same facts drive [visible] in the interpreter, so moving a counter also breaks the simulation.
+    Trace numbers, trace-call numbers and prompt numbers each come from ONE counter object created once
     per run (shared by all traces), starting at 1, stepping by 1; nothing else in nextline/spawned puts on the
     outgoing queue *)
 Theorem C09_tie_counters_per_run :
@@ -169,7 +197,7 @@ Proof. exact tie_current_call_per_trace. Qed.
 Theorem C09_tie_stray_cmdloop_refused : forall r ps sched i a k qs,
   nth_error (s_actors (fst (run r (init_sys ps) sched))) i = Some a -> a_pc a = AIdle k ->
   let sh := is_sh (fst (irun r (iinit ps) sched)) in
-  exists sh' lg, settle SFUEL key_eqb r i sh (stray_cmdloop qs k) [] = (K_idle k, sh', true, lg) /\
+  exists sh' lg, settle SFUEL key_eqb true r i sh (stray_cmdloop qs k) [] = (K_idle k, sh', true, lg) /\
                  view (sh_st sh') (KTask i) = view (sh_st sh) (KTask i) /\
                  view (sh_st sh') (KNum (a_t a)) = view (sh_st sh) (KNum (a_t a)).
 Proof. exact tie_stray_cmdloop_refused. Qed.
@@ -195,6 +223,7 @@ Print Assumptions C09_tie_wf.
 Print Assumptions C09_tie_end_in_finally_trace_call.
 Print Assumptions C09_tie_end_in_finally_cmdloop.
 Print Assumptions C09_tie_end_in_finally_prompt.
+Print Assumptions C09_tie_handler_removes_in_finally.
 Print Assumptions C09_tie_counters_per_run.
 Print Assumptions C09_tie_current_call_per_trace.
 Print Assumptions C09_tie_stray_cmdloop_refused.
